@@ -128,11 +128,15 @@ AsciiLenient(b, pol) == IF b = <<>> THEN <<>>
                         ELSE IF b[1] < 128 THEN <<b[1]>> \o AsciiLenient(Tail(b), pol)
                         ELSE IF pol = "ignore" THEN AsciiLenient(Tail(b), pol)
                         ELSE <<65533>> \o AsciiLenient(Tail(b), pol)
+\* transcoding under a lenient policy: the policy governs the re-encoding half too (what the target cannot
+\* represent is dropped / replaced, not an error)
+TransPolCases == {[k |-> "transpol", t |-> t, enc |-> e, pol |-> p] :
+                    t \in Texts(2), e \in {"ascii", "latin-1"}, p \in {"ignore", "replace"}}
 DecPolCases == {[k |-> "decpol", t |-> t, made |-> m, pol |-> p] :
                   t \in Texts(2), m \in {"utf-8", "latin-1", "utf-16"}, p \in {"ignore", "replace"}}
 TypeCases == {[k |-> "type", fn |-> f, kind |-> kd] : f \in {"safe_decode", "safe_encode", "to_utf8"},
                                                        kd \in {"str", "bytes", "other"}}
-Cases == RoundCases \cup EncodeCases \cup TransCases \cup DecPolCases \cup TypeCases
+Cases == RoundCases \cup EncodeCases \cup TransCases \cup TransPolCases \cup DecPolCases \cup TypeCases
 
 Init == c \in Cases
 Next == FALSE /\ UNCHANGED c
